@@ -9,14 +9,26 @@ package mr
 // (or `hang`), goroutines left once every user function has returned, the items handed to the
 // mapper, the values the reducer received, and the start/end history of mapper invocations.
 //
-//   run api=<mr|void|each> n=<items> w=<workers> ctx=<none|can|pre> gp=<k|-> gx=<k|-> m=<s0>/<s1>/… r=<script>
+//   run api=<mr|void|each> n=<items> w=<workers> ctx=<none|can|pre> gp=<k|-> gx=<k|-> gw=<k:ev,…|-> m=<s0>/<s1>/… r=<script>
 //
 // script = actions joined by '.', '-' = empty.  Actions:
 //   w<v> Write(v)      c<k> cancel(error k), c0 = cancel(nil)      p panic
 //   a    read the pipe until it is closed (reducer)                o read one value (reducer)
 //   s    stall until the call has returned to the harness          x cancel the harness context
 //   y    yield the processor a few times
-// gp=k: the generator panics before sending item k (k=n: after the last item); gx=k: cancels the context there.
+//   u<ev> wait until event <ev> of ANOTHER user function has happened (or the call has returned):
+//        s<i>/e<i> mapper i started/ended, pm<i> mapper i is about to panic, gt<k> item k was taken from the source,
+//        cbm<i>/cbr (cem<i>/cer) mapper i / the reducer is about to call cancel (cancel has returned), cb/ce any,
+//        rb/ra the reducer is about to Write / its Write returned, rn<k> the reducer has received k values,
+//        rc the reducer saw the pipe closed, re/rp the reducer is about to return/panic, xa/xb the context is about
+//        to be / has been cancelled, ge/gp the generator is about to return/panic, ret the call returned
+//   t<ev> probe: give event <ev> the chance to happen (yield the processor up to c10ProbeYields times, stop as soon as it
+//        has happened), then go on — used for events that MUST NOT happen while this function runs (e.g. a
+//        (workers+1)-th mapper starting while `workers` mappers are running)
+// gp=k: the generator panics before sending item k (k=n: after the last item); gx=k: cancels the context there;
+// gw=k:ev: the generator stalls before sending item k (k=n: before returning) until event ev.
+// Observed `hist` = the totally ordered history of these events (tokens as above; cancel begins carry the
+// error: cbm<i>_<k>, cbr_<k>; reducer writes and receives carry the value: rb<v>, ra<v>, rv<v>).
 
 import (
 	"context"
@@ -38,7 +50,14 @@ type c10Err struct{ k int }
 
 func (e c10Err) Error() string { return "E" + strconv.Itoa(e.k) }
 
+// c10Hangs counts the calls of this process that did not return: after c10MaxHangs of them the remaining
+// operations are not executed (`res=skipped`), so that a broken tree costs seconds, not the whole budget
+// (every hang costs the watchdog time; the replay / shrinking of a hang runs in a fresh process).
+var c10Hangs int32
+
 const (
+	c10MaxHangs    = 3
+	c10ProbeYields = 400
 	c10HangMax   = 4 * time.Second
 	c10SettleMax = 1500 * time.Millisecond
 )
@@ -89,9 +108,52 @@ func c10ErrName(err error) string {
 	return "other"
 }
 
+// c10Events is the totally ordered history of one call (every token is appended under one mutex, so the
+// order of the tokens is consistent with happens-before) and the named events user functions can wait for.
+type c10Events struct {
+	mu    sync.Mutex
+	hist  []string
+	fired map[string]chan struct{}
+}
+
+func (e *c10Events) chLocked(key string) chan struct{} {
+	c, ok := e.fired[key]
+	if !ok {
+		c = make(chan struct{})
+		e.fired[key] = c
+	}
+	return c
+}
+
+func (e *c10Events) ch(key string) chan struct{} {
+	e.mu.Lock()
+	defer e.mu.Unlock()
+	return e.chLocked(key)
+}
+
+// fire appends token tok to the history ("" = none) and marks the named events as happened.
+func (e *c10Events) fire(tok string, keys ...string) {
+	e.mu.Lock()
+	defer e.mu.Unlock()
+	if tok != "" {
+		e.hist = append(e.hist, tok)
+	}
+	for _, k := range keys {
+		c := e.chLocked(k)
+		select {
+		case <-c:
+		default:
+			close(c)
+		}
+	}
+}
+
 func c10Exec(op []string) string {
 	if len(op) == 0 || op[0] != "run" {
 		return "bad-op"
+	}
+	if atomic.LoadInt32(&c10Hangs) >= c10MaxHangs {
+		return "res=skipped left=0 mapped=- reduced=- hist=- stalltimeouts=0 panicked=0 waitsbyret=0"
 	}
 	cfg := verifh.ParseCfg(strings.Join(op[1:], " "))
 	api := cfg.Str("api", "mr")
@@ -103,6 +165,18 @@ func c10Exec(op []string) string {
 	}
 	if v := cfg.Str("gx", "-"); v != "-" {
 		gx = verifh.Atoi(v)
+	}
+	// gw=<k>:<event>[,<k>:<event>…]: the generator waits for the event before sending item k (k=n: before returning)
+	gw := map[int][]string{}
+	if v := cfg.Str("gw", "-"); v != "-" {
+		for _, p := range strings.Split(v, ",") {
+			kv := strings.SplitN(p, ":", 2)
+			if len(kv) != 2 {
+				return "bad-op"
+			}
+			k := verifh.Atoi(kv[0])
+			gw[k] = append(gw[k], kv[1])
+		}
 	}
 	var ms [][]string
 	if n > 0 {
@@ -117,21 +191,44 @@ func c10Exec(op []string) string {
 	rs := c10Script(cfg.Str("r", "-"))
 
 	base := runtime.NumGoroutine()
+	ev := &c10Events{fired: map[string]chan struct{}{}}
 	ctx, cancelCtx := context.Background(), func() {}
 	mode := cfg.Str("ctx", "none")
 	if mode != "none" {
 		ctx, cancelCtx = context.WithCancel(context.Background())
 	}
-	if mode == "pre" {
+	endCtx := func() {
+		ev.fire("xa", "xa")
 		cancelCtx()
+		ev.fire("xb", "xb")
+	}
+	if mode == "pre" {
+		endCtx()
 	}
 	defer cancelCtx()
 
-	retCh := make(chan struct{})
-	var stallTimeouts, panicked int32
+	retCh := ev.ch("ret")
+	var stallTimeouts, waitByRet, panicked int32
 	stall := func() {
 		select {
 		case <-retCh:
+		case <-time.After(c10HangMax + 2*time.Second):
+			atomic.AddInt32(&stallTimeouts, 1)
+		}
+	}
+	// wait until the named event has happened; the return of the call releases every waiter (so that a
+	// waiter the call does not depend on can never be left behind), the watchdog bounds everything else
+	wait := func(key string) {
+		c := ev.ch(key)
+		select {
+		case <-c:
+			return
+		default:
+		}
+		select {
+		case <-c:
+		case <-retCh:
+			atomic.AddInt32(&waitByRet, 1)
 		case <-time.After(c10HangMax + 2*time.Second):
 			atomic.AddInt32(&stallTimeouts, 1)
 		}
@@ -141,29 +238,47 @@ func c10Exec(op []string) string {
 			runtime.Gosched()
 		}
 	}
+	probe := func(key string) {
+		c := ev.ch(key)
+		for i := 0; i < c10ProbeYields; i++ {
+			select {
+			case <-c:
+				return
+			default:
+				runtime.Gosched()
+			}
+		}
+	}
 	var mu sync.Mutex
 	var mapped, reduced []int
-	var hist []string
 	logf := func(f func()) { mu.Lock(); f(); mu.Unlock() }
 
-	common := func(a string, cancel func(error), write func(int)) bool {
+	// who = "m<i>" or "r"
+	common := func(who, a string, cancel func(error), write func(int)) bool {
 		switch {
 		case a == "p":
 			return false // handled by the caller (panic value differs)
 		case a == "s":
 			stall()
 		case a == "x":
-			cancelCtx()
+			endCtx()
 		case a == "y":
 			yield()
+		case a[0] == 'u':
+			wait(a[1:])
+		case a[0] == 't':
+			probe(a[1:])
 		case a[0] == 'w':
 			write(verifh.Atoi(a[1:]))
 		case a[0] == 'c':
-			if k := verifh.Atoi(a[1:]); k == 0 {
+			k := verifh.Atoi(a[1:])
+			ev.fire("cb"+who+"_"+strconv.Itoa(k), "cb"+who, "cb")
+			if k == 0 {
 				cancel(nil)
 			} else {
 				cancel(c10Err{k})
 			}
+			ev.fire("ce"+who, "ce"+who, "ce")
 		default:
 			panic("verif: bad action " + a)
 		}
@@ -172,21 +287,29 @@ func c10Exec(op []string) string {
 
 	gen := func(source chan<- int) {
 		for i := 0; i <= n; i++ {
+			for _, k := range gw[i] {
+				wait(k)
+			}
 			if i == gx {
-				cancelCtx()
+				endCtx()
 			}
 			if i == gp {
 				atomic.AddInt32(&panicked, 1)
+				ev.fire("gp", "gp")
 				panic("pg")
 			}
 			if i < n {
 				source <- i
+				ev.fire("gt"+strconv.Itoa(i), "gt"+strconv.Itoa(i))
 			}
 		}
+		ev.fire("ge", "ge")
 	}
 	mapper := func(item int, wr Writer[int], cancel func(error)) {
-		logf(func() { mapped = append(mapped, item); hist = append(hist, "s"+strconv.Itoa(item)) })
-		defer logf(func() { hist = append(hist, "e"+strconv.Itoa(item)) })
+		is := strconv.Itoa(item)
+		logf(func() { mapped = append(mapped, item) })
+		ev.fire("s"+is, "s"+is)
+		defer ev.fire("e"+is, "e"+is)
 		if item < 0 || item >= len(ms) {
 			return
 		}
@@ -194,37 +317,58 @@ func c10Exec(op []string) string {
 			if a == "a" || a == "o" {
 				continue
 			}
-			if !common(a, cancel, wr.Write) {
+			if !common("m"+is, a, cancel, wr.Write) {
 				atomic.AddInt32(&panicked, 1)
-				panic("pm" + strconv.Itoa(item))
+				ev.fire("pm"+is, "pm"+is, "pm")
+				panic("pm" + is)
 			}
 		}
 	}
 	reducer := func(pipe <-chan int, wr Writer[int], cancel func(error)) {
+		got := 0
+		recv := func(v int) {
+			got++
+			logf(func() { reduced = append(reduced, v) })
+			ev.fire("rv"+strconv.Itoa(v), "rn"+strconv.Itoa(got))
+		}
+		_, noWriter := wr.(c10NoWriter)
+		write := func(v int) {
+			if noWriter { // MapReduceVoid hands the reducer no writer
+				return
+			}
+			ev.fire("rb"+strconv.Itoa(v), "rb")
+			wr.Write(v)
+			ev.fire("ra"+strconv.Itoa(v), "ra")
+		}
 		for _, a := range rs {
 			switch a {
 			case "a":
 				for v := range pipe {
-					v := v
-					logf(func() { reduced = append(reduced, v) })
+					recv(v)
 				}
+				ev.fire("rc", "rc")
 			case "o":
 				if v, ok := <-pipe; ok {
-					logf(func() { reduced = append(reduced, v) })
+					recv(v)
+				} else {
+					ev.fire("rc", "rc")
 				}
 			default:
-				if !common(a, cancel, wr.Write) {
+				if !common("r", a, cancel, write) {
 					atomic.AddInt32(&panicked, 1)
+					ev.fire("rp", "rp")
 					panic("pr")
 				}
 			}
 		}
+		ev.fire("re", "re")
 	}
 
 	resCh := make(chan string, 1)
 	go func() {
 		defer func() {
 			if p := recover(); p != nil {
+				ev.fire("ret", "ret")
 				resCh <- "panic:" + c10PanicName(p)
 			}
 		}()
@@ -235,6 +379,7 @@ func c10Exec(op []string) string {
 		switch api {
 		case "mr":
 			v, err := MapReduce[int, int, int](gen, mapper, reducer, opts...)
+			ev.fire("ret", "ret")
 			if err != nil {
 				resCh <- "err:" + c10ErrName(err)
 			} else {
@@ -244,6 +389,7 @@ func c10Exec(op []string) string {
 			err := MapReduceVoid[int, int](gen, mapper, func(pipe <-chan int, cancel func(error)) {
 				reducer(pipe, c10NoWriter{}, cancel)
 			}, opts...)
+			ev.fire("ret", "ret")
 			if err != nil {
 				resCh <- "err:" + c10ErrName(err)
 			} else {
@@ -253,6 +399,7 @@ func c10Exec(op []string) string {
 			ForEach[int](gen, func(item int) {
 				mapper(item, c10NoWriter{}, func(error) {})
 			}, opts...)
+			ev.fire("ret", "ret")
 			resCh <- "ok"
 		default:
 			resCh <- "bad-api"
@@ -263,18 +410,22 @@ func c10Exec(op []string) string {
 	case res = <-resCh:
 	case <-time.After(c10HangMax):
 		res = "hang"
+		atomic.AddInt32(&c10Hangs, 1)
+		ev.fire("", "ret") // release every stalled user function; no `ret` token: the call did not return
 	}
-	close(retCh)
 	left := 0
 	if !verifh.SettleGoroutines(base, c10SettleMax) {
 		left = runtime.NumGoroutine() - base
 	}
 	mu.Lock()
 	defer mu.Unlock()
+	ev.mu.Lock()
+	defer ev.mu.Unlock()
 	sort.Ints(mapped)
 	sort.Ints(reduced)
-	return fmt.Sprintf("res=%s left=%d mapped=%s reduced=%s hist=%s stalltimeouts=%d panicked=%d", res, left,
-		c10Ints(mapped), c10Ints(reduced), c10Join(hist), atomic.LoadInt32(&stallTimeouts), atomic.LoadInt32(&panicked))
+	return fmt.Sprintf("res=%s left=%d mapped=%s reduced=%s hist=%s stalltimeouts=%d panicked=%d waitsbyret=%d", res, left,
+		c10Ints(mapped), c10Ints(reduced), c10Join(ev.hist), atomic.LoadInt32(&stallTimeouts), atomic.LoadInt32(&panicked),
+		atomic.LoadInt32(&waitByRet))
 }
 
 type c10NoWriter struct{}
@@ -306,6 +457,7 @@ type c10Cfg struct {
 	n, w   int
 	ctx    string
 	gp, gx int
+	gw     []string // "k:ev": the generator waits for ev before sending item k
 	m      [][]string
 	r      []string
 }
@@ -331,7 +483,11 @@ func (c c10Cfg) String() string {
 	if c.n == 0 {
 		m = "-"
 	}
-	return fmt.Sprintf("run api=%s n=%d w=%d ctx=%s gp=%s gx=%s m=%s r=%s", c.api, c.n, c.w, c.ctx, opt(c.gp), opt(c.gx), m, sc(c.r))
+	gw := "-"
+	if len(c.gw) > 0 {
+		gw = strings.Join(c.gw, ",")
+	}
+	return fmt.Sprintf("run api=%s n=%d w=%d ctx=%s gp=%s gx=%s gw=%s m=%s r=%s", c.api, c.n, c.w, c.ctx, opt(c.gp), opt(c.gx), gw, m, sc(c.r))
 }
 
 func c10Plain(r *verifh.Rng, n, w int) c10Cfg {
@@ -346,7 +502,20 @@ func c10Plain(r *verifh.Rng, n, w int) c10Cfg {
 		}
 		c.m = append(c.m, s)
 	}
-	switch r.Intn(8) {
+	switch r.Intn(10) {
+	case 8:
+		c.r = []string{"o", "w" + strconv.Itoa(r.Range(1, 99))} // "first result wins": does not read the rest
+	case 9: // reducers that do not look at the pipe at all
+		switch r.Intn(4) {
+		case 0:
+			c.r = []string{"w" + strconv.Itoa(r.Range(1, 99))}
+		case 1:
+			c.r = nil
+		case 2:
+			c.r = []string{"o"}
+		default:
+			c.r = []string{"y", "w5"}
+		}
 	case 0:
 		c.r = []string{"a"} // no output
 	case 1:
@@ -366,6 +535,7 @@ func c10Clone(c c10Cfg) c10Cfg {
 		d.m[i] = append([]string(nil), c.m[i]...)
 	}
 	d.r = append([]string(nil), c.r...)
+	d.gw = append([]string(nil), c.gw...)
 	return d
 }
 
@@ -606,6 +776,275 @@ func c10ReducerWrites(c c10Cfg) int {
 	return k
 }
 
+// ---------------------------------------------------------------- forced orderings (event waits)
+//
+// c10Races enumerates, for a worker count w, the scenario class "one user function stalls on an event of
+// another, relative to a cancel / panic / context end": which function stalls (generator, a mapper, the
+// reducer), on which event, and which function cancels / panics / writes.  Every wait is on an event that is
+// certain to happen (argued per family), so that the real code must return; a wait is also released by the
+// return of the call.  The orderings are forced by the waits, never by sleeping.
+func c10Races(r *verifh.Rng, w int) []c10Cfg {
+	var out []c10Cfg
+	it := strconv.Itoa
+	mk := func(n int) c10Cfg {
+		c := c10Cfg{api: "mr", n: n, w: w, ctx: "none", gp: -1, gx: -1}
+		c.m = make([][]string, n)
+		return c
+	}
+	val := func() string { return it(r.Range(1, 9)) }
+	lateActs := []string{"", "p", "w5", "c9", "c0"}
+
+	// A. a cancel is IN PROGRESS (its error is recorded, it drains a generator that stalls), the pool is full,
+	//    and the reducer writes: the generator stalls before item g until the reducer's Write began / returned;
+	//    mapper t (< w) cancels once all of the first w mappers run; the other ones hold their slot until
+	//    the call returned; the reducer waits until item g-1 (>= w: only cancel's drain can have taken it) was
+	//    taken, or only until the cancel call began, then writes.
+	for t := 0; t < w; t++ {
+		for extra := 0; extra <= 2; extra++ {
+			// (the call cannot return before cancel's finish closed the output, so the generator must not wait for the return)
+			for _, rel := range []string{"ra", "rb"} {
+				for _, on := range []string{"gt", "cb"} {
+					if on == "gt" && extra == 0 {
+						continue
+					}
+					g := w + extra
+					n := g + r.Intn(2)
+					c := mk(n)
+					c.gw = []string{it(g) + ":" + rel}
+					for j := 0; j < n; j++ {
+						switch {
+						case j == t:
+							c.m[j] = []string{"w" + val(), "us" + it(w-1), "c" + it(t+1)}
+							if r.Chance(1, 3) {
+								c.m[j] = append(c.m[j], "w"+val())
+							}
+						case j < w:
+							c.m[j] = []string{"s"}
+							if a := lateActs[r.Intn(len(lateActs))]; a != "" {
+								c.m[j] = append(c.m[j], a)
+							}
+							if r.Chance(1, 3) {
+								c.m[j] = c10Insert(c.m[j], 0, "ucbm"+it(t))
+							}
+						default:
+							c.m[j] = []string{"w" + val()}
+						}
+					}
+					ev := "ugt" + it(g-1)
+					if on == "cb" {
+						ev = "ucbm" + it(t)
+					}
+					c.r = []string{"o", ev, "w" + it(r.Range(10, 99))}
+					if r.Chance(1, 3) {
+						c.r = c.r[1:] // a reducer that writes without reading first
+					}
+					switch r.Intn(4) {
+					case 1:
+						c.r = append(c.r, "a")
+					case 2:
+						c.r = append(c.r, "s")
+					case 3:
+						c.r = append(c.r, "a", "w3")
+					}
+					out = append(out, c)
+				}
+			}
+		}
+	}
+	// the REDUCER cancels while the generator stalls until mapper 0 (which waits for the cancel to begin) has
+	// ended; the reducer's own write after its cancel returned must be dropped
+	for extra := 1; extra <= 2; extra++ {
+		g := w + extra
+		c := mk(g + 1)
+		c.gw = []string{it(g) + ":e0"}
+		c.m[0] = []string{"ucbr", "w" + val()}
+		c.r = []string{"us" + it(w-1), "c77", "w8"}
+		out = append(out, c)
+	}
+
+	// B. a cancel has COMPLETED before another user function acts (no generator stall): mapper t cancels once
+	//    mapper j runs; X (the reducer or mapper j) waits until that cancel returned and then writes / cancels
+	//    with another error / panics / returns.  First completed cancel wins; no value, no ErrReduceNoOutput.
+	for t := 0; t < w; t++ {
+		for _, act := range []string{"w7", "c9", "c0", "p", "", "w7.w8"} {
+			// X = the reducer (it does not read while it waits: the mappers write at most `w` values in total)
+			n := w + r.Intn(3)
+			c := mk(n)
+			for j := 0; j < w; j++ {
+				c.m[j] = []string{"w" + val()}
+			}
+			first := "c" + it(t+1)
+			if r.Chance(1, 4) {
+				first = "c0"
+			}
+			c.m[t] = []string{first}
+			if r.Bool() {
+				c.m[t] = []string{"w" + val(), first, "w" + val()}
+			}
+			c.r = []string{"ucem" + it(t)}
+			if r.Bool() {
+				c.r = []string{"o", "ucem" + it(t)}
+			}
+			if act != "" {
+				c.r = append(c.r, strings.Split(act, ".")...)
+			}
+			if r.Bool() {
+				c.r = append(c.r, "a")
+			}
+			out = append(out, c)
+			// X = another mapper j < w (certainly started: t waits for it)
+			if w >= 2 && act != "w7.w8" {
+				j := (t + 1 + r.Intn(w-1)) % w
+				c := mk(n)
+				if n < w {
+					c = mk(w)
+				}
+				for k := 0; k < c.n; k++ {
+					c.m[k] = []string{"w" + val()}
+				}
+				c.m[t] = []string{"us" + it(j), "c" + it(t+1)}
+				c.m[j] = []string{"ucem" + it(t)}
+				if act != "" {
+					c.m[j] = append(c.m[j], act)
+				}
+				c.r = []string{"a", "w7"}
+				if r.Bool() {
+					c.r = []string{"a"}
+				}
+				out = append(out, c)
+			}
+		}
+	}
+	// the reducer cancels first; a mapper waits for the end of that cancel and cancels / panics / writes
+	for _, act := range []string{"c5", "c0", "p", "w3"} {
+		c := mk(w + 1)
+		for k := 0; k < c.n; k++ {
+			c.m[k] = []string{"w" + val()}
+		}
+		j := r.Intn(w)
+		c.m[j] = []string{"ucer", act}
+		c.r = []string{"us" + it(j), "c77"}
+		if r.Bool() {
+			c.r = append(c.r, "w8")
+		}
+		out = append(out, c)
+	}
+
+	// C. nothing cancelled, forced full concurrency and forced hand-over orders: the first min(n,w) mappers wait
+	//    for each other (the cap is reached exactly), the generator hands out item k only after mapper k-1 started,
+	//    the reducer starts reading only after an event of a mapper / the generator.
+	for n := 1; n <= w+2; n++ {
+		c := mk(n)
+		first := n
+		if w < first {
+			first = w
+		}
+		for j := 0; j < n; j++ {
+			for k := r.Pick(0, 1, 1, 2); k > 0; k-- {
+				c.m[j] = append(c.m[j], "w"+val())
+			}
+			if j < first {
+				c.m[j] = c10Insert(c.m[j], r.Intn(len(c.m[j])+1), "us"+it(first-1))
+				if n > w {
+					// all `w` slots are taken: mapper w must not start before one of them has ended
+					c.m[j] = append(c.m[j], "ts"+it(w))
+				}
+			}
+		}
+		if r.Bool() {
+			k := r.Range(1, n)
+			c.gw = []string{it(k) + ":s" + it(k-1)}
+		}
+		c.r = []string{"a", "w" + it(r.Range(10, 99))}
+		switch r.Intn(4) {
+		case 0:
+			c.r = c10Insert(c.r, 0, "us"+it(r.Intn(first)))
+		case 1:
+			c.r = c10Insert(c.r, 0, "ugt"+it(r.Intn(first)))
+		case 2:
+			c.r = []string{"w" + it(r.Range(10, 99)), "us" + it(first-1), "a"}
+		}
+		out = append(out, c)
+	}
+
+	// D. a mapper panics; another mapper / the reducer acts only after the panic began (t waits until j runs)
+	for t := 0; t < w; t++ {
+		for _, act := range []string{"", "c5", "w3", "p"} {
+			if w >= 2 {
+				j := (t + 1 + r.Intn(w-1)) % w
+				c := mk(w + r.Intn(2))
+				for k := 0; k < c.n; k++ {
+					c.m[k] = []string{"w" + val()}
+				}
+				c.m[t] = []string{"us" + it(j), "p"}
+				c.m[j] = []string{"upm" + it(t)}
+				if act != "" {
+					c.m[j] = append(c.m[j], act)
+				}
+				c.r = []string{"a", "w7"}
+				out = append(out, c)
+			}
+			// the reducer acts after the panic began
+			c := mk(w + r.Intn(2))
+			for k := 0; k < c.n; k++ {
+				c.m[k] = []string{"w" + val()}
+			}
+			c.m[t] = []string{"p"}
+			c.r = []string{"upm" + it(t)}
+			if act != "" {
+				c.r = append(c.r, act)
+			}
+			c.r = append(c.r, "a")
+			if c10ReducerWrites(c) == 0 && r.Bool() {
+				c.r = append(c.r, "w7")
+			}
+			out = append(out, c)
+		}
+	}
+
+	// E. the context ends at a forced point: mapper t ends it; the reducer writes only after it has ended (the
+	//    write must be dropped); the generator stalls until it has ended
+	for rep := 0; rep < 3; rep++ {
+		for t := 0; t < w; t++ {
+			c := mk(w + 1 + r.Intn(2))
+			c.ctx = "can"
+			for k := 0; k < c.n; k++ {
+				c.m[k] = []string{"w" + val()}
+			}
+			c.m[t] = []string{"x"}
+			c.r = []string{"uxb", "w7"}
+			if r.Bool() {
+				c.r = append(c.r, "a")
+			}
+			if r.Bool() {
+				c.gw = []string{it(r.Range(t+1, c.n)) + ":xb"}
+			}
+			out = append(out, c)
+		}
+		// the context is over from the start / is ended by the generator before the first item: whatever the
+		// reducer writes must be dropped (the caller's select may take either the context or the closed output)
+		for _, rs := range [][]string{{"w7"}, {"w7", "a"}, {"o", "w7"}, {"a", "w7"}, {"y", "w7", "w8"}} {
+			c := mk(r.Range(0, w+1))
+			for k := 0; k < c.n; k++ {
+				c.m[k] = []string{"w" + val()}
+			}
+			c.ctx = "pre"
+			if r.Chance(1, 3) {
+				c.ctx, c.gx = "can", 0
+				rs = append([]string{"uxb"}, rs...)
+			}
+			c.r = append([]string(nil), rs...)
+			out = append(out, c)
+		}
+	}
+	for i := range out {
+		if c10ReducerWrites(out[i]) == 0 && r.Chance(1, 6) {
+			out[i].api = "void"
+		}
+	}
+	return out
+}
+
 func c10Gen(r *verifh.Rng) []verifh.Section {
 	var lines []string
 	maxW := verifh.Scale(3, 4)
@@ -625,6 +1064,13 @@ func c10Gen(r *verifh.Rng) []verifh.Section {
 				if r.Chance(1, 5) {
 					c.api = "void"
 				}
+				lines = append(lines, c.String())
+			}
+		}
+	}
+	for rep := verifh.Scale(1, 25); rep > 0; rep-- {
+		for w := 1; w <= maxW; w++ {
+			for _, c := range c10Races(r, w) {
 				lines = append(lines, c.String())
 			}
 		}
